@@ -212,19 +212,35 @@ struct V1Meta {
     version: String,
 }
 
-struct ScriptLayer {
+struct ScriptLayer<M> {
     spec: Value,
     src_dir: PathBuf,
+    _m: std::marker::PhantomData<M>,
 }
-impl ScriptLayer {
-    fn result(&self, layer_path: &Path, marker: &str) -> Result<LayerResult<GenericMetadata>, VErr> {
+
+/// metadata types a scripted trait-API layer can use
+pub trait ScriptMeta: serde::de::DeserializeOwned + Serialize + Clone {
+    fn from_json(v: &Value) -> Self;
+}
+impl ScriptMeta for GenericMetadata {
+    fn from_json(v: &Value) -> Self {
+        json_to_toml(v).as_table().cloned()
+    }
+}
+impl ScriptMeta for V1Meta {
+    fn from_json(v: &Value) -> Self {
+        V1Meta { version: v["version"].as_str().unwrap_or("0").to_string() }
+    }
+}
+
+impl<M: ScriptMeta> ScriptLayer<M> {
+    fn result(&self, layer_path: &Path, marker: &str) -> Result<LayerResult<M>, VErr> {
         let r = &self.spec["result"];
         if r.is_null() {
             return Err(VErr("layer-callback-error".into()));
         }
         std::fs::write(layer_path.join(marker), marker).map_err(|e| VErr(e.to_string()))?;
-        let md = json_to_toml(&r["metadata"]);
-        let mut b = LayerResultBuilder::new(md.as_table().cloned());
+        let mut b = LayerResultBuilder::new(M::from_json(&r["metadata"]));
         if !r["env"].is_null() {
             b = b.env(env_of(&r["env"]));
         }
@@ -239,28 +255,31 @@ impl ScriptLayer {
         b.build()
     }
 }
-impl Layer for ScriptLayer {
+impl<M: ScriptMeta> Layer for ScriptLayer<M> {
     type Buildpack = VB;
-    type Metadata = GenericMetadata;
+    type Metadata = M;
     fn types(&self) -> LayerTypes {
         let t = &self.spec["types"];
         LayerTypes { launch: t[0].as_bool().unwrap_or(false), build: t[1].as_bool().unwrap_or(false), cache: t[2].as_bool().unwrap_or(false) }
     }
-    fn create(&mut self, _c: &BuildContext<VB>, p: &Path) -> Result<LayerResult<GenericMetadata>, VErr> {
+    fn create(&mut self, _c: &BuildContext<VB>, p: &Path) -> Result<LayerResult<M>, VErr> {
         self.result(p, "created")
     }
-    fn existing_layer_strategy(&mut self, _c: &BuildContext<VB>, _d: &LayerData<GenericMetadata>) -> Result<ExistingLayerStrategy, VErr> {
+    fn existing_layer_strategy(&mut self, _c: &BuildContext<VB>, _d: &LayerData<M>) -> Result<ExistingLayerStrategy, VErr> {
         Ok(match self.spec["strategy"].as_str().unwrap_or("recreate") {
             "keep" => ExistingLayerStrategy::Keep,
             "update" => ExistingLayerStrategy::Update,
             _ => ExistingLayerStrategy::Recreate,
         })
     }
-    fn update(&mut self, _c: &BuildContext<VB>, d: &LayerData<GenericMetadata>) -> Result<LayerResult<GenericMetadata>, VErr> {
+    fn update(&mut self, _c: &BuildContext<VB>, d: &LayerData<M>) -> Result<LayerResult<M>, VErr> {
         self.result(&d.path, "updated")
     }
-    fn migrate_incompatible_metadata(&mut self, _c: &BuildContext<VB>, _m: &GenericMetadata) -> Result<MetadataMigration<GenericMetadata>, VErr> {
-        Ok(MetadataMigration::RecreateLayer)
+    fn migrate_incompatible_metadata(&mut self, _c: &BuildContext<VB>, _m: &GenericMetadata) -> Result<MetadataMigration<M>, VErr> {
+        Ok(match self.spec["migration"].as_str().unwrap_or("recreate") {
+            "replace" => MetadataMigration::ReplaceMetadata(M::from_json(&self.spec["migrated"])),
+            _ => MetadataMigration::RecreateLayer,
+        })
     }
 }
 
@@ -360,7 +379,11 @@ pub fn run_ops(ctx: &BuildContext<VB>, ops: &[Value], src_dir: &Path) -> libcnb:
                 std::fs::write(p, op["data"].as_str().unwrap_or("D")).map_err(|e| libcnb::Error::BuildpackError(VErr(e.to_string())))?;
             }
             "handle" => {
-                ctx.handle_layer(name, ScriptLayer { spec: op.clone(), src_dir: src_dir.to_path_buf() })?;
+                if op["meta_type"].as_str() == Some("v1") {
+                    ctx.handle_layer(name, ScriptLayer::<V1Meta> { spec: op.clone(), src_dir: src_dir.to_path_buf(), _m: Default::default() })?;
+                } else {
+                    ctx.handle_layer(name, ScriptLayer::<GenericMetadata> { spec: op.clone(), src_dir: src_dir.to_path_buf(), _m: Default::default() })?;
+                }
             }
             "env_write" => {
                 // bare LayerEnv::write_to_layer_dir / read_from_layer_dir on <layers>/<name>
